@@ -244,6 +244,16 @@ def run(ctx, out, tier):
     decided = None
     direction = "right"
     if pfp is not None:
+        # every dot-suffix of the file name is a candidate: the candidate iteration is not cut short (a cap on
+        # the number of suffixes tried loses the -E keys and registered names with more components)
+        from rules.shared import TRUNCATING
+        Ep = ctx.expr(pfp)
+        for bi, t in pfp.calls():
+            if callee_matches(t, TRUNCATING.pattern) and t["args"] and not callee_matches(t, r"Iterator::(find|find_map|position)$"):
+                e = Ep.operand(t["args"][0])
+                if any(c[0] == "call" and re.search(r"<impl str>::(r?match_indices|r?split\w*|char_indices)$", c[1]) for c in walk(e)):
+                    out.viol("C16.lookup", "C16.lookup|truncated-candidates|%s" % callee_name(t).split("::")[-1], ctx.where(pfp, t["span"]),
+                             "the suffixes of the file name pass through `%s` before they are looked up: not every dot-suffix is tried, so a registered name or -E key with more components than the cap can never select its grammar (the file is skipped silently)" % callee_name(t).split("::")[-1])
         tr = out.trial()
         try:
             decided = check_lookup_model(ctx, tr, pfp)
